@@ -6,7 +6,8 @@
    which every float operation of the code is exact); `tol` is the exact rational value of the double
    1e-10.  Any Python exception = None.
    The model describes the tree WITH fixes/C14-step-last-sample.diff, fixes/C14-read-coeff.diff and
-   fixes/C14-fill-coeff-repeated-points.diff applied.  Kept for the `_refuted` witnesses:
+   fixes/C14-fill-coeff-repeated-points.diff applied, and with the `tlist is None` guard that
+   fixes/C06-empty-pulse-table.diff adds to run_analytically (`run_slices_v2` = without it).  Kept for the `_refuted` witnesses:
    `_v0` = the code as first found (last sample not zeroed, one-step advance),
    `_v1` = last sample zeroed but still the one-step advance (`if` instead of `while`). *)
 From Coq Require Import String Ascii.
@@ -202,14 +203,24 @@ Fixpoint slices (full : list Q) (rows : list (list Q)) : option (list (Q * list 
       end
   end.
 
-Definition run_slices_with fill (tol : Q) (ps : list pulse) : option (list (Q * list Q)) :=
+(* body of run_analytically before fixes/C06-empty-pulse-table.diff: len(None) raises when no pulse has a grid *)
+Definition run_slices_strict_with fill (tol : Q) (ps : list pulse) : option (list (Q * list Q)) :=
   match get_full_tlist tol ps, full_coeffs_with fill tol ps with
   | Some full, Some rows => slices full rows
   | _, _ => None
   end.
+(* with that diff: `if tlist is None: tlist = []`.  get_full_coeffs is still called: it raises (len(None)) for
+   every non-empty pulse list without a grid, and returns its degenerate value, which is then never indexed,
+   for the processor without pulses -- which therefore has no time slice to propagate *)
+Definition run_slices_with fill (tol : Q) (ps : list pulse) : option (list (Q * list Q)) :=
+  match ps with
+  | [] => Some []
+  | _ => run_slices_strict_with fill tol ps
+  end.
 Definition run_slices := run_slices_with fill_coeff.
-Definition run_slices_v1 := run_slices_with fill_coeff_v1.
-Definition run_slices_v0 := run_slices_with fill_coeff_v0.
+Definition run_slices_v2 := run_slices_strict_with fill_coeff.   (* while-loop, no `tlist is None` guard *)
+Definition run_slices_v1 := run_slices_strict_with fill_coeff_v1.
+Definition run_slices_v0 := run_slices_strict_with fill_coeff_v0.
 
 (* ---------------------------------------------------------------------------------------- *)
 (* save_coeff / read_coeff : header and column bookkeeping (numbers are copied, %1.16f rounding is
